@@ -521,6 +521,11 @@ class BaseReferenceColumn(BaseColumn):
       return None
     rev_table_id, rev_col_id = self._reverse_source_node
     reverse_col = self._target_table.get_column(rev_col_id)
+    if not isinstance(reverse_col, BaseReferenceColumn):
+      # While a table is being renamed, the reference columns that point at it are plain Int
+      # columns for a moment. For a two-way pair within the renamed table that includes our
+      # reverse column; it gets rebuilt from us when its own type comes back.
+      return None
     reverse_adjustments = []
     for target_row_id in self._target_table.row_ids:
       reverse_value = self._relation.get_affected_rows((target_row_id,))
